@@ -157,6 +157,10 @@ ExtendOutcomes(s, items, r) ==
                     ELSE {o}
                     : o \in first }
 
+\* SortableDict(initial): the constructor stores the initial items one by one (a dict is taken in its own
+\* order); it is the first step of a history or none
+CtorOutcomes(s, items) == IF s.order # <<>> THEN {} ELSE ExtendOutcomes(s, items, TRUE)
+
 (***************************************************************************)
 (* Operation records (the `op` variable, hidden by VIEW) and dispatch.      *)
 (***************************************************************************)
@@ -176,6 +180,7 @@ Outcomes(s, o) ==
       [] o.name = "append"     -> AppendOutcomes(s, o.k, o.v, o.replace)
       [] o.name = "append_default" -> AppendOutcomes(s, o.k, DefaultVal, o.replace)
       [] o.name = "extend"     -> ExtendOutcomes(s, o.items, o.replace)
+      [] o.name = "ctor"       -> CtorOutcomes(s, o.items)
 
 AllVals == Vals \cup (IF HasValidator THEN {BadVal} ELSE {})
 
@@ -194,6 +199,7 @@ Ops ==
     \cup [name : {"extend"}, items : {<<<<k1, v1>>, <<k2, v2>>>> : k1 \in Keys, k2 \in Keys,
                                                   v1 \in AllVals, v2 \in Vals} \cup {<<>>},
           replace : BOOLEAN]
+    \cup [name : {"ctor"}, items : {<<<<k1, v1>>, <<k2, v2>>>> : k1 \in Keys, k2 \in Keys, v1 \in Vals, v2 \in Vals}]
 
 Cur == [order |-> order, vals |-> vals]
 
